@@ -34,7 +34,12 @@ def fsRequest : SExp → Option Request
       | .atom "u" => some DestView.unparsable
       | .list [.atom "p", x] => do pure (DestView.path (← x.bytes?))
       | _ => none)
-    let fault ← (match fault with | .atom "n" => some none | x => do pure (some (← x.nat?)))
+    -- `c<k>`: the request context is cancelled after k body bytes while the body reads on; LocalFileSystem does not
+    -- consult the context, so the model treats the request as undisturbed (the judge allows a clean refusal too)
+    let fault ← (match fault with
+      | .atom "n" => some none
+      | .atom s => if s.startsWith "c" then some none else do pure (some (← (SExp.atom s).nat?))
+      | _ => none)
     let pf ← (match pf with
       | .atom "a" => some PfBody.allprop | .atom "n" => some PfBody.propname | .atom "f" => some PfBody.fileprops
       | .atom "o" => some PfBody.noform | .atom "m" => some PfBody.malformed | _ => none)
@@ -109,21 +114,32 @@ def allowsB (t : FS) (r : Request) (out : FS × Response) : Bool :=
   else if faulted r then out.2.status ≥ 400 && sameTree out.1 t
   else sameTree out.1 (effect t r) && (successCodes t r).contains out.2.status && entityOKb t r out.2
 
+/-- a path with a component longer than 255 bytes: the operating system refuses it (ENAMETOOLONG), which the model
+    of the file tree does not express -/
+def overlong (p : Bytes) : Bool := (p.splitOn 47).any (fun seg => seg.length > 255)
+
+def reqCancelled : SExp → Bool
+  | .list [.atom "req", _, _, _, _, _, _, _, _, _, _, .atom s, _] => s.startsWith "c"
+  | _ => false
+
 /-- `fs.req <tree> <request> => <status> <allow> <dav> <len> <tag> <body> <multi> <tree'> <leak> <canary>` -/
 def opFsReq (args : List SExp) : Option OpResult := do
   match args with
   | [tree, req] =>
     let t ← fsTree tree
     let r ← fsRequest req
+    let cancelled := reqCancelled req
     let out := step t r
-    let impl := s!"{prResponse out.2} {prTree out.1} {boolTok out.2.msg.mentionsHost} 0"
+    let abstain := overlong r.path || (match r.dest with | .path d => overlong d | _ => false)
+    let impl := if abstain then "?" else s!"{prResponse out.2} {prTree out.1} {boolTok out.2.msg.mentionsHost} 0"
     let judge : String → List (String × String) := fun got =>
       match parseAnswer got with
       | none => [("C01", "unreadable-answer"), ("C13", "no-complete-response")]
       | some (t', resp, leak, canary) =>
         let existingFile := match target r.path with | some p => kind t p = .file | none => false
         let faultRegion := faulted r && existingFile && (refusals t r).isEmpty
-        let c01 := if allowsB t r (t', resp) then [] else
+        -- a cancelled request may also be refused cleanly (an error status and nothing changed)
+        let c01 := if abstain || allowsB t r (t', resp) || (cancelled && resp.status ≥ 400 && sameTree t' t) then [] else
           [("C01", if faultRegion then "put-body-fault-existing-file" else s!"{r.method}-answered-{resp.status}")]
         let c02 := if resp.status ≥ 400 && !sameTree t' t then
           [("C02", if faultRegion then "put-body-fault-existing-file" else s!"{r.method}-{resp.status}-changed-the-tree")] else []
@@ -133,7 +149,7 @@ def opFsReq (args : List SExp) : Option OpResult := do
           ((r.method = "COPY" || r.method = "MOVE") && (match r.dest with | .path d => (target d).isNone | _ => false))
         let c03 := (if canary then [("C03", "outside-root-touched")] else []) ++
           (if unmappable && !(400 ≤ resp.status && resp.status < 500) then [("C03", s!"unmappable-path-answered-{resp.status}")] else [])
-        let c13 := if resp.status ≥ 500 && !faulted r then [("C13", s!"{r.method}-answered-{resp.status}")] else []
+        let c13 := if resp.status ≥ 500 && !faulted r && !cancelled && !abstain then [("C13", s!"{r.method}-answered-{resp.status}")] else []
         let conditional := (r.method = "PUT" || r.method = "DELETE") && (r.ifMatch != .unset || r.ifNoneMatch != .unset)
         let c04 := if conditional && (!c01.isEmpty || !c02.isEmpty) then [("C04", s!"{r.method}-precondition-answered-{resp.status}")] else []
         -- C11: the WebDAV server's PROPFIND answers (status, one response per resource in scope, refusal of a body
